@@ -27,6 +27,20 @@ RUN_FN = "run_case"
 CHECK_FN = "check_case"
 INPUT_TYPE = "input"
 
+
+
+def pre_build():
+    """regenerate coq/Gen/C29_src.v from the working tree's tornado/web.py (fails closed)"""
+    import importlib
+    import os
+    import sys
+    from harness.framework import REPO, COQ
+    sys.path.insert(0, os.path.join(os.path.dirname(COQ), "translators"))
+    import c29_src
+    importlib.reload(c29_src)
+    c29_src.emit(REPO, os.path.join(COQ, "Gen", "C29_src.v"))
+
+
 EOS, AFTER, BAD = chr(256), chr(257), chr(258)   # end of gzip stream / bytes after it / undecodable
 NAMES = ("Vary", "Content-Encoding", "Content-Length", "Content-Type")
 
@@ -136,17 +150,20 @@ def _drive(case):
     conn = FakeConn()
     rh = HTTPHeaders()
     rh.add("Host", "example.com")
-    if case["ae"] is not None:
-        rh.add("Accept-Encoding", case["ae"])
+    for v in case["ae"]:
+        rh.add("Accept-Encoding", v)
     with warnings.catch_warnings():
         warnings.simplefilter("ignore")
         req = HTTPServerRequest(headers=rh, connection=conn,
                                 start_line=RequestStartLine("HEAD" if case["head"] else "GET", "/", "HTTP/1.1"))
-    app = W.Application([], compress_response=True)
+    app = W.Application([], compress_response=True) if case["comp"] else W.Application([])
     h = W.RequestHandler(app, req)
     # as _HandlerDelegate.execute / RequestHandler._execute do
     h._transforms = [t(req) for t in app.transforms]
-    assert len(h._transforms) == 1 and isinstance(h._transforms[0], W.GZipContentEncoding)
+    if case["comp"]:
+        assert len(h._transforms) == 1 and isinstance(h._transforms[0], W.GZipContentEncoding)
+    else:
+        assert h._transforms == []
     for o in case["prog"]:
         k = o[0]
         if k == "H":
@@ -159,14 +176,23 @@ def _drive(case):
             h.write(chunk_bytes(o[1]))
         elif k == "F":
             h.flush()
+        elif k == "S":
+            h.set_status(o[1])
         else:
-            raise AssertionError(k)
-    if case["fin"] is None:
-        h.finish()
-    else:
-        h.finish(chunk_bytes(case["fin"]))
-    assert conn.finished == 1
-    return conn, bool(h._transforms[0]._gzipping)
+            raise RuntimeError(k)
+    try:
+        if case["fin"] is None:
+            h.finish()
+        else:
+            h.finish(chunk_bytes(case["fin"]))
+    except AssertionError:
+        # finish(): `assert not self._write_buffer` for 204 / 304 / 1xx
+        if conn.headers is not None or conn.chunks or conn.finished:
+            raise RuntimeError("assertion after output")
+        return None, False
+    if conn.finished != 1:
+        raise RuntimeError("connection.finish() calls: %d" % conn.finished)
+    return conn, bool(h._transforms and h._transforms[0]._gzipping)
 
 
 def _canon_real(conn, gzipping):
@@ -218,13 +244,15 @@ def run_impl(case):
         conn, gzipping = loop.run_until_complete(go())
     finally:
         W.gzip = saved
+    if conn is None:
+        return G.Tag("AssertionError")
     if conn.headers is None:
         return G.Tag("NoHeaders")
     if case["toy"]:
         hd, chunks = conn.headers, [c.decode("latin-1") for c in conn.chunks]
     else:
         hd, chunks = _canon_real(conn, gzipping)
-    return [[v for v in hd[n]] for n in NAMES] + [chunks]
+    return [conn.code] + [[v for v in hd[n]] for n in NAMES] + [chunks]
 
 
 # ---------------------------------------------------------------- Gallina rendering
@@ -238,13 +266,20 @@ def gop(o):
         return "ClearH %s" % G.gbytes(o[1])
     if k == "W":
         return "Write %s" % gchunk(o[1])
+    if k == "S":
+        return "Status %s" % G.gn(o[1])
     return "Flush"
 
 
+def ae_value(case):
+    """request.headers.get("Accept-Encoding")"""
+    return ",".join(case["ae"]) if case["ae"] else None
+
+
 def coq_input(case):
-    return "(%s, %s, %s, %s, %s)" % (
-        G.gbool(case["toy"]), G.gbool(case["head"]),
-        G.goption(case["ae"], G.gbytes, "bytes"),
+    return "(%s, %s, %s, %s, %s, %s)" % (
+        G.gbool(case["toy"]), G.gbool(case["head"]), G.gbool(case["comp"]),
+        G.glist([G.gbytes(v) for v in case["ae"]], "bytes"),
         G.glist([gop(o) for o in case["prog"]], "op"),
         G.goption(case["fin"], gchunk, "bytes"))
 
@@ -281,22 +316,26 @@ def toy_gunzip(b):
     return None
 
 
+def bodiless(code):
+    return code in (204, 304) or 100 <= code < 200
+
+
 def py_check(case, o):
     """the property on the implementation's observable, with the handler's own headers replayed on a
     real HTTPHeaders object (independent of the Coq model)"""
-    if not isinstance(o, list) or len(o) != 5:
-        return False
     from tornado.httputil import HTTPHeaders
-    vary, ce, cl, ct, chunks = o
     hh = HTTPHeaders()
     hh["Content-Type"] = "text/html; charset=UTF-8"
     all_writes = b""
     first = b""
     flushed = False
+    wrote = case["fin"] is not None
+    status = 200
     for op in case["prog"]:
         if op[0] == "F":
             flushed = True
         elif op[0] == "W":
+            wrote = True
             all_writes += chunk_bytes(op[1])
             if not flushed:
                 first += chunk_bytes(op[1])
@@ -307,15 +346,35 @@ def py_check(case, o):
                 hh.add(op[1], op[2])
             elif op[0] == "C" and op[1] in hh:
                 del hh[op[1]]
+            elif op[0] == "S":
+                status = op[1]
     if case["fin"] is not None:
         all_writes += chunk_bytes(case["fin"])
         if not flushed:
             first += chunk_bytes(case["fin"])
+    must_assert = (not flushed) and bodiless(status) and wrote
+    if isinstance(o, G.Tag):
+        return o == "AssertionError" and must_assert
+    if must_assert or not isinstance(o, list) or len(o) != 6:
+        return False
+    code, vary, ce, cl, ct, chunks = o
+    if (not flushed) and bodiless(status):       # _clear_representation_headers
+        for n in ("Content-Encoding", "Content-Language", "Content-Type"):
+            if n in hh:
+                del hh[n]
     body = "".join(chunks)
+    ok = code == status
+    if bodiless(code) and all_writes == b"":
+        ok = ok and body == ""
     handler_ce = "Content-Encoding" in hh
     handler_cl = "Content-Length" in hh
+    if not case["comp"]:
+        if (not flushed) and (not bodiless(status)) and not handler_cl:
+            hh["Content-Length"] = str(len(first))
+        ok = ok and [vary, ce, cl, ct] == [hh.get_list(n) for n in NAMES]
+        return ok and body == ("" if case["head"] else all_writes.decode("latin-1"))
     gz = (not handler_ce) and ce == ["gzip"]
-    ok = any(f.strip(" \t") == "Accept-Encoding" for v in vary for f in v.split(","))
+    ok = ok and any(f.strip(" \t") == "Accept-Encoding" for v in vary for f in v.split(","))
     if case["head"]:
         ok = ok and body == ""
     elif handler_ce:
@@ -330,8 +389,8 @@ def py_check(case, o):
     else:
         ok = False
     ctype = ",".join(ct).split(";")[0]
-    want = ("gzip" in (case["ae"] or "")) and (ctype.startswith("text/") or ctype in WHITELIST) \
-        and (flushed or len(first) >= 1024) and not handler_ce
+    want = ("gzip" in (ae_value(case) or "")) and (ctype.startswith("text/") or ctype in WHITELIST) \
+        and (flushed or len(first) >= 1024) and not handler_ce and STATUS_OK(status)
     ok = ok and (gz == want)
     if gz or not handler_cl:
         if len(cl) > 1:
@@ -339,6 +398,11 @@ def py_check(case, o):
         elif len(cl) == 1 and not case["head"]:
             ok = ok and cl[0] == str(len(body))
     return ok
+
+
+def STATUS_OK(status):
+    """which statuses transform_first_chunk is willing to compress (fix 32796e6)"""
+    return status not in (204, 304) and not (100 <= status < 200)
 
 
 # ---------------------------------------------------------------- generator
@@ -360,8 +424,9 @@ NAME_VARIANTS = {
 }
 
 
-def mk(toy, head, ae, prog, fin=None):
-    return {"toy": bool(toy), "head": bool(head), "ae": ae, "prog": [list(o) for o in prog], "fin": fin}
+def mk(toy, head, ae, prog, fin=None, comp=True):
+    ae = [] if ae is None else [ae] if isinstance(ae, str) else list(ae)
+    return {"toy": bool(toy), "head": bool(head), "comp": bool(comp), "ae": ae, "prog": [list(o) for o in prog], "fin": fin}
 
 
 def small_chunk(rng):
@@ -443,6 +508,46 @@ def rand_case(rng, big_p=0.12):
     return mk(toy, head, ae, prog, fin)
 
 
+STATUSES = [200, 204, 304, 100, 101, 199, 201, 206, 404, 500, 203, 205, 305]
+
+
+def decorate(rng, c):
+    """phase-3 dimensions on top of a base case: set_status, compress_response off, several Accept-Encoding headers"""
+    c = dict(c, prog=[list(o) for o in c["prog"]])
+    r = rng.random()
+    if r < 0.30:
+        code = rng.choice(STATUSES) if rng.random() < 0.5 else rng.choice([204, 304, 101])
+        c["prog"].insert(rng.randrange(len(c["prog"]) + 1), ["S", code])
+        if rng.random() < 0.2:
+            c["prog"].insert(rng.randrange(len(c["prog"]) + 1), ["S", rng.choice(STATUSES)])
+    if rng.random() < 0.12:
+        c["comp"] = False
+    if rng.random() < 0.12:
+        c["ae"] = rng.choice([["deflate", "gzip"], ["gz", "ip"], ["br", "identity"], ["gzip", "gzip"], ["", "gzip;q=0"], ["x", "y", "z"]])
+    return c
+
+
+def status_cases(toys, quick):
+    out = []
+    for toy in toys:
+        for code in ((204, 304, 101, 199, 200) if quick and toy else (204, 304) if quick else (204, 304, 100, 101, 199, 200, 201, 404)):
+            for ae in (("gzip",) if quick and not toy else ("gzip", None)):
+                out.append(mk(toy, False, ae, [["S", code]]))
+                out.append(mk(toy, False, ae, [["S", code], ["F"]]))                       # class of the defect repaired by 32796e6
+                out.append(mk(toy, False, ae, [["S", code], ["W", ""]]))                   # assertion: list non-empty
+                out.append(mk(toy, False, ae, [["S", code], ["W", "x"], ["F"]]))
+                out.append(mk(toy, False, ae, [["F"], ["S", code]]))
+                out.append(mk(toy, False, ae, [["S", code]], "x"))
+                out.append(mk(toy, False, ae, [["H", "Content-Encoding", "br"], ["H", "Content-Language", "en"], ["S", code]]))
+                out.append(mk(toy, False, ae, [["H", "Content-Length", "0"], ["S", code], ["H", "Content-Type", "image/png"], ["F"]]))
+            out.append(mk(toy, False, "gzip", [["S", code], ["W", "x"]], comp=False))
+            out.append(mk(toy, False, "gzip", [["S", code], ["F"]], comp=False))
+            if toy:
+                out.append(mk(True, True, "gzip", [["S", code], ["F"]]))
+                out.append(mk(True, True, "gzip", [["S", code]]))
+    return out
+
+
 def soup_case(rng):
     """unstructured op soup over valid names/values"""
     toy = rng.random() < 0.7
@@ -505,6 +610,13 @@ def corpus_cases():
         mk(False, False, "gzip", [["W", [1100, 65, 0]]]),
         mk(False, False, "gzip", [["H", "Vary", "Cookie"], ["W", [1100, 65, 0]]]),
         mk(False, False, "gzip", [["A", "Vary", "Accept-Language"], ["A", "Vary", "Cookie"], ["W", [1100, 65, 0]]]),
+        # bodiless status flushed before finish (defect repaired by /repo 32796e6: a gzip header became the body) and its neighbours
+        mk(True, False, "gzip", [["S", 204], ["F"]]),
+        mk(False, False, "gzip", [["S", 304], ["F"]]),
+        mk(True, False, "gzip", [["S", 204]]),
+        mk(True, False, "gzip", [["S", 204], ["W", "x"]]),
+        mk(True, False, "gzip", [["W", [1100, 65, 0]]], comp=False),
+        mk(False, False, ["deflate", "gzip"], [["W", [1100, 65, 0]]]),
         # flush before finish (Content-Length dropped; chunked or close-delimited downstream)
         mk(False, False, "gzip", [["W", "hello"], ["F"], ["W", " world"]]),
         mk(True, False, "gzip", [["W", "a\xffb"], ["F"], ["F"], ["W", "\xff"]], "\xff\xff"),
@@ -517,6 +629,11 @@ def gen_cases(rng, tier):
     out = []
     quick = tier != "thorough"
     out += boundary_cases(rng, [True, False], quick)
+    out += status_cases([True, False], quick)
+    for ct in ("text/html", "image/png"):
+        for prog in ([["W", "abc"]], [["W", "abc"], ["F"], ["W", "d"]], [["H", "Vary", "Cookie"], ["F"]], [["W", [1024, 1, 1]]]):
+            out.append(mk(len(out) % 2 == 0, False, "gzip", [["H", "Content-Type", ct]] + prog, comp=False))
+            out.append(mk(True, True, "gzip", [["H", "Content-Type", ct]] + prog, comp=False))
     # content types x accept-encoding (flushed response so that size does not matter, and a >= 1 KiB single chunk)
     for ct in CTYPES_GOOD + CTYPES_BAD:
         for ae in (["gzip", None] if quick else AES):
@@ -551,10 +668,18 @@ def gen_cases(rng, tier):
         for p in enum_progs([w1, wf, hct, hce, hcl, hv, ["C", "Content-Type"], ["C", "content-encoding"]], 3):
             out.append(mk(len(out) % 2 == 0, False, "gzip", p))
             out.append(mk(len(out) % 2 == 0, False, "identity", p, "q"))
-    for _ in range(450 if quick else 3500):
-        out.append(rand_case(rng, 0.07 if quick else 0.05))
-    for _ in range(120 if quick else 1000):
-        out.append(soup_case(rng))
+    # small-scope exhaustive programs with set_status in the alphabet (and without the transform)
+    s204, s404 = ["S", 204], ["S", 404]
+    for p in enum_progs([w1, wf, s204, s404, hct], 2 if quick else 4):
+        for fin in (None, "z"):
+            out.append(mk(len(out) % 3 != 0, False, "gzip", p, fin))
+    for p in enum_progs([w1, wf, s204, hv], 2 if quick else 3):
+        out.append(mk(len(out) % 2 == 0, False, "gzip", p, comp=False))
+        out.append(mk(True, True, "gzip", p))
+    for _ in range(400 if quick else 2400):
+        out.append(decorate(rng, rand_case(rng, 0.07 if quick else 0.05)))
+    for _ in range(120 if quick else 700):
+        out.append(decorate(rng, soup_case(rng)))
     # spread the heavy cases (>= 512-byte chunks) evenly so that the coqc shards are balanced
     heavy = [c for c in out if total_len(c["prog"], c["fin"]) >= 512]
     light = [c for c in out if total_len(c["prog"], c["fin"]) < 512]
@@ -573,9 +698,9 @@ def gen_cases(rng, tier):
 
 # ---------------------------------------------------------------- evidence helpers
 def nontrivial(case, o):
-    if not isinstance(o, list):
+    if not isinstance(o, (list, G.Tag)):
         return None
-    return (case["toy"], case["head"], case["ae"], repr(case["prog"]), repr(case["fin"]))
+    return (case["toy"], case["head"], case["comp"], repr(case["ae"]), repr(case["prog"]), repr(case["fin"]))
 
 
 def classify(case, o):
@@ -584,11 +709,16 @@ def classify(case, o):
     nf = sum(1 for x in case["prog"] if x[0] == "F")
     yield "flushes=" + ("0" if nf == 0 else "1" if nf == 1 else "2+")
     if isinstance(o, list):
-        yield "gzip=" + ("yes" if o[1] == ["gzip"] else "other" if o[1] else "no")
-        yield "content-length=" + ("present" if o[2] else "absent")
+        yield "gzip=" + ("yes" if o[2] == ["gzip"] else "other" if o[2] else "no")
+        yield "content-length=" + ("present" if o[3] else "absent")
     t = total_len(case["prog"], case["fin"])
     yield "body=" + ("0" if t == 0 else "<1024" if t < 1024 else "1024" if t == 1024 else ">1024")
-    yield "accept-encoding=" + ("absent" if case["ae"] is None else "mentions-gzip" if "gzip" in case["ae"] else "other")
+    yield "accept-encoding=" + ("absent" if not case["ae"] else "mentions-gzip" if "gzip" in ae_value(case) else "other") + (" (several headers)" if len(case["ae"]) > 1 else "")
+    yield "compress_response=" + str(case["comp"])
+    if isinstance(o, list):
+        yield "status=" + ("bodiless" if bodiless(o[0]) else "other")
+    else:
+        yield "outcome=" + str(o)
 
 
 def signature(case, o):
@@ -615,6 +745,7 @@ def shrink(case):
 
 
 TRUSTED_BASE = [
+    "translators/c29_src.py (ast reader of class GZipContentEncoding: constants, __init__, _compressible_type, Vary block, ctype statement, decision expression; fails closed); Gen/C29_equiv.v proves the generated definitions equal to the model's",
     "gzip.GzipFile/zlib are abstract in the theorems (a record of open/write/flush/close functions with the hypothesis "
     "codec_ok: the decoder applied to everything emitted up to and including close returns the concatenation of the writes); "
     "on the real-gzip cases the harness decodes the implementation's chunks with zlib's streaming decompressor, which is what checks this hypothesis on the runs performed",
@@ -623,18 +754,21 @@ TRUSTED_BASE = [
     "HTTPHeaders name normalisation / joining is modelled for ASCII token names and valid values (validation errors are C06/C07's subject)",
 ]
 ASSUMPTIONS = [
-    "status 200, GET or HEAD, no If-None-Match (no 304 / 204 / 1xx paths), a single GZipContentEncoding transform (compress_response=True)",
+    "GET or HEAD, any set_status code (204/304/1xx paths of finish included), no If-None-Match (no ETag-driven 304); transforms = [GZipContentEncoding] or [] (compress_response)",
     "header names are ASCII tokens and values pass _convert_header_value / HTTPHeaders validation",
     "the handler does not call finish() twice or write after finish; the program is a list of set_header/add_header/clear_header/write/flush calls followed by finish([chunk])",
 ]
 RULE = ("boundary chunk sizes {0,1,1022..1025,2048,5000} in single-chunk and flushed programs x {toy codec, real gzip}; content types (whitelist, text/*, near misses, "
         "parameters, absent, multi-valued) x Accept-Encoding values; all write/flush programs up to a length bound (quick: 3, thorough: 5) with and without finish(chunk); "
-        "all header-op/write/flush programs up to length 2 (thorough 3); structured random handlers and op soups. distinct by (codec, method, Accept-Encoding, program, finish chunk)")
+        "all header-op/write/flush programs up to length 2 (thorough 3); all write/flush/set_status/Content-Type programs up to length 2 (thorough 4), also without the transform and as HEAD; "
+        "set_status x flush placement x empty/non-empty writes (finish assertion); compress_response off; several Accept-Encoding headers; structured random handlers and op soups. "
+        "distinct by (codec, method, compress_response, Accept-Encoding values, program, finish chunk)")
 LEVEL_TEXT = ("Machine-checked (Coq) proofs over an executable model of GZipContentEncoding and RequestHandler.flush/finish, for every header/write/flush program, "
               "content type and Accept-Encoding and every gzip codec satisfying the round-trip hypothesis: decoding the body by the response's Content-Encoding returns "
               "exactly the bytes written; compression happens exactly when Accept-Encoding mentions gzip, the type is compressible, the response is not a short single chunk and "
-              "the handler set no Content-Encoding; Vary always lists Accept-Encoding; a Content-Length, when present, is the encoded body length. The model is compared with "
+              "the handler set no Content-Encoding and the status can carry a body (204/304/1xx are never encoded and get no body byte); Vary always lists Accept-Encoding; a Content-Length, when present, "
+              "is the encoded body length; without compress_response nothing is touched; finish() asserts exactly on bodiless status + unflushed write. The decision logic is regenerated from web.py by a fail-closed translator and proved equal to the model's. The model is compared with "
               "the real RequestHandler on every generated case (all bytes, with a toy codec; decoded by zlib, with the real gzip).")
 LEVEL_NOTE = ("Trusted: Coq kernel/vm_compute; zlib/gzip correctness (hypothesis codec_ok, exercised by real decoding in the harness); the recording fake connection; "
-              "the correspondence harness. 304/204/1xx paths, cookies and other transforms are outside the model.")
+              "the correspondence harness; the ast translator. ETag-driven 304, cookies and other transforms are outside the model.")
 TECHNIQUE = "Coq proof (phase invariant over the operation list, codec as a universally quantified record) + differential correspondence via vm_compute with a toy codec and with real gzip"
